@@ -3,7 +3,7 @@
    nat, N, positive stay the extracted inductive types; no Extract Constant. *)
 From Coq Require Extraction ExtrOcamlBasic.
 From Coq Require Import List NArith.
-From RV Require Import Scalar LinAlg3 Spatial Quat ListArr ModelDef JointDef KinDef LinDef DynDef UtilDef ConsDef IkDef BezDef LuaDef JetDef SpecDef.
+From RV Require Import Scalar LinAlg3 Spatial Quat ListArr ModelDef JointDef KinDef LinDef DynDef UtilDef ConsDef IkDef BezDef LuaDef JetDef SpecDef BalDef.
 Extraction Language OCaml.
 Extraction "model.ml"
   mkOps onat oabs
@@ -17,7 +17,7 @@ Extraction "model.ml"
   gauss_elim_pivot solve_pp minverse sparse_factorize_ltl sparse_solve_lx sparse_solve_ltx
   mvmul mTn mmmul mzeros vzeros mident
   calc_center_of_mass calc_zmp calc_potential_energy calc_kinetic_energy
-  jet_ops spec0 spec_add spec_set poses point_of kstates k_point k_vel k_acc tau_np whole_body spec_union energy_rate spec_phi_jets cons_G cons_row_err calc_constrained_system_variables forward_dynamics_constraints constraint_impulses kkt_solve kkt_matrix inverse_dynamics_constraints idc_rows gpt lua_parent bez_val bez_du bez_dydx corner_cp corner_ok calc_u ssf_value ssf_deriv ssf_shift ssf_scale ik1 ik2 ik1_rows ik2_rows madd mscale assembly_q assembly_qdot apply_delta cons_row_errd ukc_qd mTvmul b2b world_orient ukc_q
+  jet_ops spec0 spec_add spec_set poses point_of kstates k_point k_vel k_acc tau_np whole_body spec_union energy_rate spec_phi_jets cons_G cons_row_err calc_constrained_system_variables forward_dynamics_constraints constraint_impulses kkt_solve kkt_matrix inverse_dynamics_constraints idc_rows gpt lua_parent bez_val bez_du bez_dydx corner_cp corner_ok calc_u ssf_value ssf_deriv ssf_shift ssf_scale ik1 ik2 ik1_rows ik2_rows madd mscale assembly_q assembly_qdot apply_delta cons_row_errd ukc_qd mTvmul b2b world_orient ukc_q fpe_state fpe_solve fpe_iters
   rbi_toMatrix m66list st_apply st_applyT st_applyAdj st_inv st_mul st_apply_rbi st_applyT_rbi rbi_mulv
   crossm crossf qmul qtoMatrix qrotate qomegaToQDot qfromMatrix_hdr qfromMatrix qconj Xrot
   st_toMatrix st_toMatrixAdjoint st_toMatrixTranspose rbi_from_mci rbi_fromMatrix rbi_add m66mul m66v.
